@@ -42,9 +42,11 @@ def invariants_for(side, atomic):
 
 def mc_and_dump(work, name, ns, nc, h, side, atomic, workers):
     cfg = os.path.join(work, "Ring_%s.cfg" % name)
-    R.write_cfg(cfg, ns=ns, nc=nc, h=h, side=side, sq="AllStarts" if side != "cq" else "OneStart",
-                cq="AllStarts" if side != "sq" else "OneStart", wrapping=R.CODE_NOW["Wrapping"], debug="TRUE",
-                le=R.CODE_NOW["CqEmptyLE"], atomic="TRUE" if atomic else "FALSE", invariants=invariants_for(side, atomic))
+    short = max(ns, nc) >= 8       # big rings: window around the wrap only (Ring_MC.tla ShortStarts / ShortLast)
+    R.write_cfg(cfg, ns=ns, nc=nc, h=h, side=side, sq=("ShortStarts" if short else "AllStarts") if side != "cq" else "OneStart",
+                cq=("ShortStartsC" if short else "AllStarts") if side != "sq" else "OneStart", wrapping=R.CODE_NOW["Wrapping"], debug="TRUE",
+                le=R.CODE_NOW["CqEmptyLE"], atomic="TRUE" if atomic else "FALSE", invariants=invariants_for(side, atomic),
+                extra_const="  Last <- ShortLast\n" if short else "")
     dot = os.path.join(work, "Ring_%s.dot" % name)
     res = core.run_tlc("Ring_MC.tla", cfg, workers=workers, timeout=1500, dump=dot, xmx="6g", metadir=_md(name))
     core.tlc_must_pass(res, "Ring_MC " + name)
@@ -164,7 +166,7 @@ def run(tier):
     tour_stats, sim_stats, rnd_stats = {}, {}, {}
     total_edges = 0
     for (name, ns, nc, h, side, atomic) in tours:
-        res, g, paths = r_tours[name]
+        res, g, paths = r_tours.pop(name)
         chk.add_tlc(res)
         consts = {"ns": ns, "nc": nc, "h": h}
         plans, exps = [], []
@@ -179,6 +181,7 @@ def run(tier):
         replay_paths(chk, bindirs, stream, plans, exps, "tour_" + name, "tour " + name, st)
         tour_stats[name] = st
         total_edges += g.nedges
+        del plans, exps, paths
         conformance = conformance and not st["divergent_runs"]
         chk.evaluations += st["steps_compared"]
         if len(chk.samples) < 3 and plans:
